@@ -31,14 +31,14 @@ import (
 // Eco is a type-erased view of one ecosystem of the implementation.
 // Every call is made under recover(); a panic is reported in the Outcome.
 type Eco struct {
-	Name      string
-	parse     func(string) (any, bool, error) // value, value-is-nil, error
-	compare   func(a, b any) int
-	str       func(any) string
-	parseR    func(string) (any, bool, error)
-	contains  func(r, v any) bool
-	strR      func(any) string
-	LibName   string // what e.Name() returns
+	Name     string
+	parse    func(string) (any, bool, error) // value, value-is-nil, error
+	compare  func(a, b any) int
+	str      func(any) string
+	parseR   func(string) (any, bool, error)
+	contains func(r, v any) bool
+	strR     func(any) string
+	LibName  string // what e.Name() returns
 }
 
 func wrap[V univers.Version[V], VR univers.VersionRange[V]](e univers.Ecosystem[V, VR]) *Eco {
@@ -51,8 +51,8 @@ func wrap[V univers.Version[V], VR univers.VersionRange[V]](e univers.Ecosystem[
 			v, err := e.NewVersion(s)
 			return v, isNilV(v), err
 		},
-		compare:  func(a, b any) int { return a.(V).Compare(b.(V)) },
-		str:      func(a any) string { return a.(V).String() },
+		compare: func(a, b any) int { return a.(V).Compare(b.(V)) },
+		str:     func(a any) string { return a.(V).String() },
 		parseR: func(s string) (any, bool, error) {
 			r, err := e.NewVersionRange(s)
 			return r, isNilR(r), err
@@ -110,11 +110,12 @@ func ecoByName(n string) *Eco {
 
 // Parsed is the outcome of NewVersion / NewVersionRange.
 type Parsed struct {
-	Val      any
-	OK       bool   // value usable, error nil
-	Panic    string // non-empty if the call panicked
-	XorBad   bool   // neither (value,nil) nor (nil,error)
-	Dur      time.Duration
+	Val    any
+	OK     bool   // value usable, error nil
+	Panic  string // non-empty if the call panicked
+	XorBad bool   // neither (value,nil) nor (nil,error)
+	Dur    time.Duration
+	Err    string // text of the returned error ("" if none)
 }
 
 func guard(f func()) (p string) {
@@ -129,6 +130,9 @@ func (e *Eco) Parse(s string) Parsed {
 		out.Val = v
 		out.OK = err == nil && !isNil
 		out.XorBad = (err == nil) == isNil
+		if err != nil {
+			out.Err = err.Error()
+		}
 	})
 	out.Dur = time.Since(t0)
 	if out.Panic != "" {
@@ -145,6 +149,9 @@ func (e *Eco) ParseRange(s string) Parsed {
 		out.Val = v
 		out.OK = err == nil && !isNil
 		out.XorBad = (err == nil) == isNil
+		if err != nil {
+			out.Err = err.Error()
+		}
 	})
 	out.Dur = time.Since(t0)
 	if out.Panic != "" {
